@@ -10,6 +10,7 @@ from typing import Any, Dict, List, Optional, Tuple
 
 from harness.extract import nondet as x_nondet
 from harness.extract import nondet_seeding as x_seeding
+from harness.extract import nondet_output as x_output
 from harness.extract import sharedstate as x_shared  # C04's extractor, imported read-only
 from harness.lib import scen
 from harness.lib.core import REPO, SRC, VERIF, Ctx, Rng, lean_lock, run_driver
@@ -938,6 +939,7 @@ def run(ctx: Ctx):
     with lean_lock():
         ok_x = ctx.extract("Nondet", x_nondet.emit)
         ok_s = ctx.extract("NondetSeeding", x_seeding.emit)
+        ctx.extract("NondetOutput", x_output.emit)
         ctx.extract("SharedState", x_shared.emit)
         proved = ctx.prove(MODULES, exes=[EXE], leanchecker=ctx.thorough)
     mark("extract+prove")
